@@ -7,7 +7,7 @@ package simtypes
 // Call is one library call. Content is always carried as bytes (B) so that
 // arbitrary byte strings survive JSON.
 type Call struct {
-	Fn    string  `json:"fn"`              // qr dm aztec pdf417 code128 code128nc code39 code93 codabar ean 2of5 addcs scale rs bitlist
+	Fn    string  `json:"fn"`              // qr dm aztec pdf417 code128 code128nc code39 code93 codabar ean 2of5 addcs scale rs same bitlist
 	B     []byte  `json:"b,omitempty"`     // content
 	I1    int     `json:"i1,omitempty"`    // qr: level; aztec: min ecc %; pdf417: security level; scale: width; rs: ecc count
 	I2    int     `json:"i2,omitempty"`    // qr: mode; aztec: layers; scale: height
@@ -42,7 +42,7 @@ type Stall struct {
 
 // BitOp is one operation of a BitList history.
 type BitOp struct {
-	Op string `json:"op"`          // new addbit addbits addbyte set get len bytes iter
+	Op string `json:"op"`          // new zero addbit addbits addbyte set get len bytes iter itern
 	A  int    `json:"a,omitempty"` // new: n; addbits: value; addbyte: byte; set/get: index
 	N  int    `json:"n,omitempty"` // addbits: count; addbit: number of bits taken from Bits
 	V  bool   `json:"v,omitempty"` // set: value
@@ -65,6 +65,8 @@ type Segment struct {
 	RSShared int        `json:"rs_shared,omitempty"`
 	Phases   [][][]Call `json:"phases,omitempty"` // phase -> worker -> program
 
+	NoSim bool `json:"no_sim,omitempty"` // run the calls natively, without the simulator (input probing only; never used as an oracle)
+
 	// explicit replay: when Choices is non-nil the policy and stalls are ignored
 	Choices []int32  `json:"choices,omitempty"`
 	MapPay  []uint64 `json:"map_pay,omitempty"`
@@ -76,17 +78,20 @@ type Segment struct {
 
 // CallResult is what one call was observed to do.
 type CallResult struct {
-	Class   string         `json:"class"` // ok | err | panic | notrun | diverged (bitlist: disagreement with the model)
-	Stats   map[string]int `json:"stats,omitempty"`
-	Digest  string         `json:"digest,omitempty"`
-	Err     string         `json:"err,omitempty"`
-	Panic   string         `json:"panic,omitempty"`
-	Stack   string         `json:"stack,omitempty"`
-	ArgMod  bool           `json:"arg_mod,omitempty"`    // the call modified its argument buffer
-	MutDig  string         `json:"mut_digest,omitempty"` // digest after the caller overwrote the buffer
-	EndDig  string         `json:"end_digest,omitempty"` // digest at the end of the program (k calls later)
-	MutWhat string         `json:"mut_what,omitempty"`   // which observable changed
-	Steps   int            `json:"steps,omitempty"`
+	Class     string         `json:"class"` // ok | err | panic | notrun | diverged (bitlist: disagreement with the model)
+	Stats     map[string]int `json:"stats,omitempty"`
+	Digest    string         `json:"digest,omitempty"`
+	W         int            `json:"w,omitempty"` // image width (Bounds().Dx()) when a barcode was returned
+	H         int            `json:"h,omitempty"`
+	Err       string         `json:"err,omitempty"`
+	Panic     string         `json:"panic,omitempty"`
+	Stack     string         `json:"stack,omitempty"`
+	ArgMod    bool           `json:"arg_mod,omitempty"`    // the call modified its argument buffer
+	MutDig    string         `json:"mut_digest,omitempty"` // digest after the caller overwrote the buffer
+	EndDig    string         `json:"end_digest,omitempty"` // digest at the end of the program (k calls later)
+	MutWhat   string         `json:"mut_what,omitempty"`   // which observable changed
+	LaterWhat string         `json:"later_what,omitempty"` // which observable of the returned barcode changed after later calls
+	Steps     int            `json:"steps,omitempty"`
 }
 
 // Leak describes a library goroutine still alive at quiescence.
@@ -121,5 +126,6 @@ type Result struct {
 	Preempts    int              `json:"preempts"`
 	MapRanges   int              `json:"map_ranges"`
 	ClockJumps  int              `json:"clock_jumps"`
+	FairKicks   int              `json:"fair_kicks"`
 	Dump        string           `json:"dump,omitempty"` // goroutine dump on deadlock / hang
 }
